@@ -875,7 +875,10 @@ def check_C15(tier, seed):
     proof = prepare("C15", res)
     rng = gen.rng_for(seed, "C15")
     cases, dist = parse_cases(tier, seed, "C15", thin=4)
-    cases = [s for s in cases if "\ufeff" not in s]
+    # parts that begin with U+FEFF: the scanner keeps the mark as content wherever it stands (known C18 class), so a part
+    # must read the same at the start of the stream and behind a '...' line
+    bom_rng = gen.rng_for(seed, "C15-bom")
+    cases += ["\ufeff" + s for s in bom_rng.sample(cases, min(len(cases), 300 if tier == "quick" else 5000)) if not s.startswith("\ufeff")]
     # dedicated regression streams (repaired class, see C15_REGRESSION_PARTS): appended to the case list so that they are
     # parsed on their own like every other part
     reg_index = {}
